@@ -408,6 +408,9 @@ def join_aux(source_name, source_key, source_delete,  # noqa: C901
 
 
 def join(source_name, source_key, target_name, target_key, fields={}, full=None, mode='half-outer', source_delete=True):
+    if isinstance(full, str):
+        # the documented signature has `mode` in this position
+        mode, full = full, None
     return join_aux(source_name, source_key, source_delete, target_name, target_key, fields, full, mode)
 
 
